@@ -27,9 +27,6 @@ NA = {
         "functions and a textbook series - statements about special-function values in floating point that no contract over the Python code can "
         "express or decide; the Python data-flow parts are claimed elsewhere (thickness/radius equivalence: C20 layered_by_thickness; size-parameter "
         "hand-off: C04 mie_kernel_arguments); the equal-index-layer collapse lives in Yang's recursion inside the Fortran code (DESIGN.md section 7)",
- 'C08': "'equal once the quadrature is converged', refinement-independence and interpolated = direct evaluation are approximation-error statements "
-        "of numerical analysis in floating point, which a contract over exact reals cannot state or decide; the generic Lens wrapper needs the Fortran "
-        "Mie solver (not built); AberratedMieLens data-flow is covered through C04/C05/C06 contracts only (DESIGN.md section 7)",
  'C10': "every clause is about values returned by (or a STOP inside) Mishchenko's Fortran T-matrix code, which is not built and cannot be built in this "
         "sandbox; no contract on Python code can express or decide it (DESIGN.md section 7)",
 }
